@@ -730,3 +730,11 @@ V("C16", "annotations-guard-conjunction", "F", "R2", GLP, "        if not isinst
 V("C04", "impossible-found-list-not-refused", "S", "", R + "project.py", "        if not all(item.cls == ReuseTOML for item in found):\n            raise NotImplementedError()\n", "")
 V("C19", "success-message-dropped", "S", "", R + "cli/download.py", "            _successfully_downloaded(destination)\n", "            pass\n")
 V("C03", "no-multiprocessing-option-not-stored", "S", "", R + "cli/main.py", "        no_multiprocessing=no_multiprocessing,\n", "")
+# round 13: the REPAIRED refactorings (the seeded fault put right, the rest of the diff kept) must not raise an alarm anywhere.
+# Three of them are honestly undecided for one property each (another algorithm than the one the rule models).
+_R13_UNDECIDED = {("C06", "C06"), ("C06", "C01"), ("C06", "C19"), ("C13", "C13"), ("C20", "C20"), ("C20", "C07"), ("C20", "C09"), ("C20", "C10")}
+for _b in ("C02", "C03", "C06", "C07", "C08", "C11", "C13", "C14", "C15", "C16", "C17", "C19", "C20"):
+    for _i in range(1, 21):
+        _p = f"C{_i:02d}"
+        VARIANTS.append({"prop": _p, "id": f"{_p}:r13-repaired-refactor-{_b}", "expect": "U" if (_b, _p) in _R13_UNDECIDED else "S", "rule": "", "edits": [],
+                         "patchfile": _os.path.join(_BP, f"r13-{_b}.diff")})
